@@ -209,8 +209,11 @@ public:
 
 		// can't std::forward<Args>(args) in GetEvent::getEvent because the pass by value arguments will be moved to getEvent
 		// then the other std::forward<Args>(args) to directDispatch will get empty values.
+		// The event must be obtained in its own statement: the evaluation order of function arguments is unspecified,
+		// so std::forward<Args>(args) may move a by-value argument away before getEvent reads it.
+		const Event event = GetEvent::getEvent(args...);
 		directDispatch(
-			GetEvent::getEvent(args...),
+			event,
 			std::forward<Args>(args)...
 		);
 	}
@@ -222,8 +225,10 @@ public:
 
 		using GetEvent = typename SelectGetEvent<Policies_, EventType_, HasFunctionGetEvent<Policies_, T &&, Args...>::value>::Type;
 
+		// See the comment in the other dispatch overload for why the event is obtained in its own statement.
+		const Event event = GetEvent::getEvent(std::forward<T>(first), args...);
 		directDispatch(
-			GetEvent::getEvent(std::forward<T>(first), args...),
+			event,
 			std::forward<Args>(args)...
 		);
 	}
